@@ -22,6 +22,7 @@ def dispatch (j : Json) : Json :=
   match jstr j "op" with
   | "classify" => handleClassify j
   | "analyze" => handleAnalyze j
+  | "typetotals" => handleTypeTotals j
   | "match" => handleMatch j
   | "legacy" => handleLegacy j
   | "transforms" => handleTransforms j
